@@ -45,6 +45,8 @@ let direct id c =
   match obs with
   | [o] when tag o = "st" ->
       count "direct_cases";
+      if field_opt "enc" c <> None then count "direct_cases_with_special_byte_content";
+      if field_opt "hp" c <> None then count "direct_cases_with_blob_hashes_sharing_a_prefix";
       let real = rows_of_obs o in
       let model = rows_of_model (lsc_consume merge changes) in
       if real <> model then
@@ -97,6 +99,8 @@ type rstep = { rc : int; rnp : int; rm : bool; rauthor : int; rtick : int; rinde
    proved equal to the specification-level function (C12_fast_replay_ok, C12_fast_once_oracle, C12_fast_listing,
    C12_fast_runs); on short sequences the slow functions are evaluated as well and must agree. *)
 let small_limit = 40
+(* round 4: FileDiff.WhitespaceIgnore of the case being judged (lines that differ in U+0020 only are then the same line) *)
+let ws_case = ref false
 type cinfo = { mutable allne : bool; mutable somene : bool; mutable ckeys : (int * int) list; mutable nrep : int }
 
 let rec is_prefix p l = match p, l with
@@ -121,6 +125,12 @@ let pipe_obs id pfx cec is_scale hib (prev_lh : string list) obs : string list =
   count "pipe_cases";
   if field_opt "same-pipeline" obs <> None then count "reuse_analyses_with_the_same_pipeline_object";
   if hib > 0 then count "pipe_cases_with_hibernation";
+  (match field_opt "mergeprefix" obs with
+   | Some f -> let k = int_of_sx (nth (args f) 0) in
+       if k >= 8 then count "pipe_cases_two_merge_hashes_share_8_or_more_hex_digits"
+       else if k >= 4 then count "pipe_cases_two_merge_hashes_share_4_to_7_hex_digits"
+       else if k >= 1 then count "pipe_cases_two_merge_hashes_share_1_to_3_hex_digits"
+   | None -> ());
   let lh = List.map atom (args (field "lhashes" obs)) in
   (* --- the steps the items saw *)
   let steps = List.map (fun s ->
@@ -402,9 +412,15 @@ let pipe_obs id pfx cec is_scale hib (prev_lh : string list) obs : string list =
                 if t.tins = 0 && t.tdel = 0 then count "files_changed_in_mode_only";
                 conserve "modified" 1 t.tins t.tdel
             | [ds] -> count "modified_files_nonminimal_diff";
+                let (ra, rr', rc') = (match find 1 t.tf with [(_, _, _, a, rr, ch)] -> (a, rr, ch) | _ -> (-1, -1, -1)) in
                 if ni (inserted ds) - ni (deleted ds) <> t.tnew - t.told then
-                  propfail id (Printf.sprintf "commit %d file %d: the diff script grows the file by %d lines, the declared contents by %d" r.rc t.tf
-                                 (ni (inserted ds) - ni (deleted ds)) (t.tnew - t.told))
+                  propfail id (Printf.sprintf "commit %d file %d: the file has %d lines in the parent and %d in the commit, but the diff the statistics are made from inserts %d and deletes %d lines (added=%d removed=%d changed=%d: added - removed is not the growth of the file%s)" r.rc t.tf
+                                 t.told t.tnew (ni (inserted ds)) (ni (deleted ds)) ra rr' rc' (if !ws_case then "; FileDiff.WhitespaceIgnore is on" else ""))
+                else if not !ws_case && (ni (inserted ds) < t.tins || ni (deleted ds) < t.tdel) then
+                  (* without WhitespaceIgnore two lines are the same line iff their bytes are: no line diff of the declared
+                     contents inserts / deletes fewer lines than the minimal one *)
+                  propfail id (Printf.sprintf "commit %d file %d: added=%d removed=%d changed=%d come from a diff that inserts %d and deletes %d lines, but every line diff of the declared contents inserts at least %d and deletes at least %d (lines that differ in their bytes were taken for the same line)" r.rc t.tf
+                                 ra rr' rc' (ni (inserted ds)) (ni (deleted ds)) t.tins t.tdel)
                 else conserve "modified" 1 (ni (inserted ds)) (ni (deleted ds))
             | _ -> propfail id (Printf.sprintf "commit %d file %d differs from the parent but is not among the tree changes" r.rc t.tf)
           end) tfs;
@@ -456,11 +472,17 @@ let pipe id c =
   let is_scale = (match field_opt "mode" c with Some m -> atom (nth (args m) 0) = "scale" | None -> false) in
   let hib = (match field_opt "hib" c with Some h -> int_of_sx (nth (args h) 0) | None -> 0) in
   if field_opt "pd" c <> None then count "pipe_cases_with_a_given_people_dictionary";
+  let flag f = (match field_opt f c with Some h -> int_of_sx (nth (args h) 0) <> 0 | None -> false) in
+  ws_case := flag "ws";
+  if !ws_case then count "pipe_cases_with_FileDiff_WhitespaceIgnore";
+  if flag "ncl" then count "pipe_cases_with_FileDiff_NoCleanup";
+  if flag "dto" then count "pipe_cases_with_FileDiff_Timeout";
   ignore (pipe_obs id "" cec is_scale hib [] (field "obs" c))
 
 (* re-use: (obs (run i late cec hib (obs ...)) ...) - every analysis is judged like a first one *)
 let reuse id c =
   let is_scale = field_opt "au" c <> None in
+  ws_case := false;
   let rc = (match field_opt "rc" c with Some r -> bool_of_sx (nth (args r) 0) | None -> false) in
   let runs = args (field "obs" c) in
   let total = List.length (List.filter (fun r -> not (bool_of_sx (nth (args r) 1))) runs) in
